@@ -16,6 +16,10 @@ func NewState(cfg *Cfg, root reflect.Value, open func([]byte, int) reflect.Value
 	// setter-clone-unlinked and copyfrom-over-shared are repaired too (43ba0d9)
 	cfg.AllowCloneUnlinked = true
 	cfg.AllowCopyOverShared = true
+	// the "marks relative to an intermediate value" family is repaired as well (58b1b15): several
+	// structural changes per node between two Writes are generated like any other call
+	cfg.AllowRevealArray, cfg.AllowRevealOneof, cfg.AllowRevealShared, cfg.AllowFrozenReencode = true, true, true, true
+	cfg.AllowAppendStruct = true // repaired by 85a5f3b
 	st := &State{Cfg: cfg, Pool: map[string][]*ObjSpec{}, Stats: map[string]int{}}
 	st.Env = NewEnv(root.Type().Elem(), &st.AltCalls, open)
 	return st
@@ -26,6 +30,8 @@ func ReplayState(cfg *Cfg, gen *State) *State {
 	cfg.AllowNegZero = true
 	cfg.AllowCloneUnlinked = true
 	cfg.AllowCopyOverShared = true
+	cfg.AllowRevealArray, cfg.AllowRevealOneof, cfg.AllowRevealShared, cfg.AllowFrozenReencode = true, true, true, true
+	cfg.AllowAppendStruct = true // repaired by 85a5f3b
 	st := &State{Cfg: cfg, Stats: map[string]int{}}
 	st.Env = NewEnv(gen.Env.RootType, &gen.AltCalls, gen.Env.OpenReader)
 	return st
@@ -288,7 +294,7 @@ func (g *gen) mutStruct(v reflect.Value, t *Type, nav []NavStep, depth int, stac
 	if g.st.Cfg.DictHeavy && depth == 0 {
 		mode = 15
 	}
-	if g.st.Cfg.AllowRevealOneof && g.main {
+	if g.st.Cfg.ForceRevealOneof && g.main {
 		mode = 15 // visit every field: oneofs with struct alternatives are rare otherwise
 	}
 	for i, f := range fields {
@@ -413,7 +419,7 @@ func (g *gen) mutDictField(v reflect.Value, f Field, nav []NavStep, depth int, s
 		g.stat("dict-set-" + kind)
 	}
 	// Deliberate trigger of reveal-shared-twice: a second frozen assignment in the same period.
-	if g.main && g.st.Cfg.AllowRevealShared && canFreeze && g.r.Chance(1, 2) {
+	if g.main && g.st.Cfg.ForceRevealShared && canFreeze && g.r.Chance(1, 2) {
 		spec := g.newObject(f.Type, pt, true, depth, stack)
 		g.st.Pool[f.Type.Def.Name] = append(g.st.Pool[f.Type.Def.Name], spec)
 		g.do(nav, &Call{M: "Set" + n, Args: []any{spec}, Tag: 'S', Ty: f.Type, Get: n})
@@ -454,7 +460,7 @@ func (g *gen) mutOneof(v reflect.Value, t *Type, nav []NavStep, depth int, stack
 			g.mutNode(call(v, an)[0], a.Type, with(nav, an, -1), depth+1, stack)
 		}
 		// Deliberate trigger of reveal-oneof-twice: away and back in one period.
-		if g.main && g.st.Cfg.AllowRevealOneof && !a.Type.Kind.Primitive() && g.r.Chance(2, 3) {
+		if g.main && g.st.Cfg.ForceRevealOneof && !a.Type.Kind.Primitive() && g.r.Chance(2, 3) {
 			other := 1 + g.r.Intn(len(alts))
 			if other != cur {
 				g.do(nav, &Call{M: "SetType", Args: []any{other}, Tag: 'T', Alt: other, Ty: t})
@@ -652,7 +658,7 @@ func (g *gen) mutArray(v reflect.Value, t *Type, nav []NavStep, depth int, stack
 		if deep && nl > 2 {
 			nl = g.r.Intn(2)
 		}
-		if g.st.Cfg.AllowRevealArray && n >= 1 && g.r.Chance(2, 3) {
+		if g.st.Cfg.ForceRevealArray && n >= 1 && g.r.Chance(2, 3) {
 			// deliberate trigger of reveal-array-twice: shrink below, then grow above
 			g.do(nav, &Call{M: "EnsureLen", Args: []any{g.r.Intn(n)}, Tag: 'L', Ty: t})
 			nl = n + g.r.Intn(2)
